@@ -541,6 +541,8 @@ impl<'a> Runtime<'a> {
                     if !should_continue {
                         break;
                     }
+                    #[cfg(feature = "verif")]
+                    crate::verif::on_loop_iteration();
 
                     let frame_offset =
                         if self.has_frame_arena() { Some(self.frame.offset()) } else { None };
